@@ -4,6 +4,8 @@ import RedisVerif.Driver.C06
 import RedisVerif.Driver.C01
 import RedisVerif.Driver.C15
 import RedisVerif.Driver.C04
+import RedisVerif.Driver.C03
+import RedisVerif.Driver.C02
 
 open RedisVerif.Driver
 
@@ -30,4 +32,6 @@ def main (args : List String) : IO UInt32 := do
   | ["C01"] | ["C17"] => loopState stdin stdout C01.stepLine RedisVerif.Redis.init; return 0
   | ["C15"] => loop stdin stdout C15.step; return 0
   | ["C04"] => loop stdin stdout C04.step; return 0
+  | ["C03"] => loopState stdin stdout C03.step C03.DState.init; return 0
+  | ["C02"] => loopState stdin stdout C02.step ([] : C02.DState); return 0
   | _ => IO.eprintln "usage: rvdriver <property-id> < ops"; return 2
